@@ -109,6 +109,22 @@ def check_tps(tp, c):
     return bad
 
 
+def check_sf_dtype_order(sc):
+    """shapes this process has not used, single precision FIRST, then the exact ramp law in double precision"""
+    bad = []
+    for shape in ((5, 13), (6, 17), (9, 9)):
+        ramp = np.arange(shape[0], dtype=float)[:, None] * 0.7 + 0.0 * np.arange(shape[1])[None, :]
+        sc.calculate_structure_function(np.random.default_rng(1).standard_normal(shape).astype(np.float32))
+        sc.calculate_structure_function(ramp.astype(np.float32))
+        got = np.asarray(sc.calculate_structure_function(ramp.copy()), float)
+        law = np.array([(0.7 * j) ** 2 for j in range(len(got))])
+        okv = ~np.isnan(got)
+        if not np.allclose(got[okv], law[okv], rtol=1e-12, atol=1e-12):
+            bad.append(("structure_function:ramp-law:precision-depends-on-an-earlier-call", dict(shape=list(shape), err=float(np.nanmax(np.abs(got - law) / np.maximum(law, 1e-300))))))
+            break
+    return bad
+
+
 def check_general_n(tp, rng):
     """frame counts outside the model's exact ones (2, 4, 8): the definition evaluated as a literal DFT in float64 (auxiliary)"""
     bad = []
@@ -199,6 +215,8 @@ def run(run):
                     run.sample(c, limit=4)
                 for key, detail in bad:
                     run.violation(key, detail, c)
+            for key, detail in check_sf_dtype_order(sc):
+                run.violation(key, detail, dict(kind="dtype-order"))
             badg, n_gen = check_general_n(tp, np.random.default_rng(run.seed))
             for key, detail in badg:
                 run.violation(key, detail, dict(kind="general-n"))
@@ -223,6 +241,8 @@ def replay(run, case):
                 bad = check_sf(sc, case)
             elif case["kind"] == "tps":
                 bad = check_tps(tp, case)
+            elif case["kind"] == "dtype-order":
+                bad = check_sf_dtype_order(sc)
             elif case["kind"] == "general-n":
                 bad, _ = check_general_n(tp, np.random.default_rng(run.seed))
             else:
